@@ -1,11 +1,12 @@
 SPECIFICATION Spec
 CONSTANTS
-    Tables = {{0, 21, 22, 700, 1448}}
+    Tables <- AllSingles
     OvershootPadsToMultiple = TRUE
     Sticky = FALSE
-    WriteSizes = {0, 1, 1427, 1428, 2855}
+    WriteSizes = {0, 1, 100, 1406, 1427, 1428, 2855, 4282}
     ZeroSampleGuarded = TRUE
-    Modes = {0, 1}
+    Modes = {2}
     TrackTotals = FALSE
+INVARIANTS NoPanic PieceLeSeg ParanoidPieceIsSample EmptyParanoidWrite
 PROPERTY Terminates
 CHECK_DEADLOCK FALSE
